@@ -43,6 +43,13 @@ def known_entry(known, prop, class_key):
     return None
 
 
+PER_RUN_WALL_GUARD = 600
+
+
+class WallGuard(BaseException):
+    pass
+
+
 class Arm(object):
     """one simulation arm of a check"""
 
@@ -57,19 +64,28 @@ def _run_chunk(args):
     simmod, simname, prop, seed, indices, armed, want_samples = args
     import importlib
     sim = importlib.import_module(simmod)
-    signal.signal(signal.SIGALRM, signal.SIG_DFL)
-    faulthandler.dump_traceback_later(900, exit=True)
+    faulthandler.dump_traceback_later(3000, exit=True)
     agg = {
         "stats": collections.Counter(), "probes": collections.Counter(), "states": set(), "violations": [],
         "soft": {}, "digests": [], "samples": [], "harness": [], "nontrivial": 0, "runs": 0, "faults": collections.Counter(),
         "steps": 0,
     }
+    def _wall(signum, frame):
+        raise WallGuard("run exceeded the per-run wall-clock guard")
+    signal.signal(signal.SIGALRM, _wall)
     for i in indices:
         tape = Tape(mix_seed(seed, simname, prop, i))
         try:
+            signal.alarm(PER_RUN_WALL_GUARD)
             plan = sim.make_plan(tape, prop)
             res = sim.execute(plan, armed)
+            signal.alarm(0)
+        except WallGuard:
+            # never a verdict: the simulated clock should have fired long before; reported as the machinery's failure
+            agg["harness"].append((i, "per-run wall-clock guard (%d s) hit in run %d" % (PER_RUN_WALL_GUARD, i)))
+            continue
         except Exception:
+            signal.alarm(0)
             agg["harness"].append((i, traceback.format_exc()))
             continue
         agg["runs"] += 1
@@ -90,6 +106,7 @@ def _run_chunk(args):
             if k not in agg["soft"]:
                 agg["soft"][k] = [0, i, s]
             agg["soft"][k][0] += 1
+    signal.alarm(0)
     faulthandler.cancel_dump_traceback_later()
     agg["stats"] = dict(agg["stats"])
     agg["probes"] = dict(agg["probes"])
@@ -319,8 +336,12 @@ def run_check(prop, arms, level, tier, seed, workers, rule, assumptions, real_st
         cov.update(extra_coverage)
     ev = {"property_id": prop, "tier": tier, "seed": seed, "level": level, "coverage": cov,
           "assumptions": assumptions, "wall_s": round(wall, 2), "violations": len(reported)}
-    os.makedirs(os.path.join(VERIF, "evidence"), exist_ok=True)
-    with open(os.path.join(VERIF, "evidence", "%s.json" % prop), "w") as f:
+    evdir = os.path.join(VERIF, "evidence")
+    if os.environ.get("VERIF_REPO", "/repo") != "/repo":
+        # a scratch tree (sensitivity runs): never overwrite the evidence of the real repository
+        evdir = os.path.join(os.environ.get("TMPDIR", "/tmp"), "verif-evidence-scratch")
+    os.makedirs(evdir, exist_ok=True)
+    with open(os.path.join(evdir, "%s.json" % prop), "w") as f:
         json.dump(ev, f, indent=1, sort_keys=True, default=_json_default)
     print("%s %s: %d runs (%d non-trivial), %d distinct, %d known-finding classes, %d new violation classes, %.1fs" %
           (prop, tier, total["runs"], total["nontrivial"], total["states"], len(known_hits), len(reported), wall))
